@@ -48,6 +48,9 @@ def rules(chk, db):
     # a value and its encoding determine each other: the empty / error marker of a wrapper must not be a prefix of the wrapped type
     from .. import ambrules
     ambrules.check(chk, db, 'AMB')
+    # a Variant destination is re-seated through Become: destroy the old alternative, then construct the new one (typestate)
+    from . import c12
+    c12.explore(chk, db, prefix='TV.')
     w = chk.extra.get('struct_member_order_w', {})
     r = chk.extra.get('struct_member_order_r', {})
     for t in sorted(set(w) & set(r)):      # types that are both written and read somewhere in the analysed units
